@@ -63,8 +63,8 @@ package bastion
 //@                     && !rd_err[refOf(r)] && G_j() < 1000000 && (forall j int :: 0 <= j && j < G_j() ==> len(G_row()[G_off() + j]) > 0 && len(b64enc(str(G_row()[G_off() + j]))) < 4096)
 //@                     && noNL(G_part())
 //@   modifies rd_buf, rd_err, rd_under
-//@   ghostmodifies n_pb
-//@   ensures[ghost] n_pb == old(n_pb) + 1
+//@   ghostmodifies n_pb, pb_ok, pb_cp
+//@   ensures[ghost] n_pb == old(n_pb) + 1 && pb_ok == (err == nil) && pb_cp == cp
 //@   // a proof line that is not base64 is refused, wherever it stands and whatever follows it
 //@   ensures[C11.b] badLine ==> err != nil
 //@   // input that ends before the blank separator is refused
@@ -121,7 +121,7 @@ package bastion
 //@   requires forall k string :: k in a.logs ==> a.logs[k].Origin == originFor(k)
 //@   modifies n_wo, wo_err, wo_h, n_gl, gl_err, gl_val, gl_h, n_set, set_err, set_arg, set_h, n_close, close_h, n_commit
 //@   modifies n_sign, sign_err, sign_out, sign_n, st_has, st_val, cnt, n_upd, upd_id, upd_old, upd_cp, upd_proof, upd_out, upd_err
-//@   modifies n_allow, allow_ok, n_pb, rd_buf, rd_err, n_wh, wh_code, n_write, body_out, n_hdr, hdr_key, hdr_val, n_bodies_open, body_open, rd_under
+//@   modifies n_allow, allow_ok, n_pb, pb_ok, pb_cp, rd_buf, rd_err, n_wh, wh_code, n_write, body_out, n_hdr, hdr_key, hdr_val, n_bodies_open, body_open, rd_under
 //@   // always exactly one status line, one of the documented codes
 //@   ensures[C10.one,C19.one] n_wh == 1 && (wh_code == 200 || wh_code == 400 || wh_code == 403 || wh_code == 404 || wh_code == 409 || wh_code == 422 || wh_code == 429 || wh_code == 500)
 //@   // over the rate: 429 without reading the body or touching the witness
@@ -129,6 +129,9 @@ package bastion
 //@   // the witness is asked at most once, for the ID of the first line of the submitted checkpoint, and only for a log in the table
 //@   ensures[C10.upd,C12.id] n_upd <= old(n_upd) + 1 && (updated ==> allowed && parsed && hasSep(str(upd_cp), "\n") && upd_id == ID(before(str(upd_cp), "\n")) && upd_id in a.logs)
 //@   ensures[C10.404] allowed && wh_code == 404 ==> !updated || upd_err == witness.ErrUnknownLog
+//@   // ... and conversely every request that is within the rate, well-formed and names a log of the table DOES reach the witness,
+//@   // whatever else is configured (another log sharing its key, say): nothing stands between the table lookup and the witness
+//@   ensures[C10.reach,C12.reach] allowed && parsed && pb_ok && hasSep(str(pb_cp), "\n") && ID(before(str(pb_cp), "\n")) in a.logs ==> updated
 //@   // the answer follows the witness's verdict
 //@   ensures[C10.map] updated && upd_err == nil && nsig(upd_out) <= 100 ==> wh_code == 200 && n_write == old(n_write) + 1
 //@                    && str(body_out) == "— " ++ sig0Name(upd_out, witV()) ++ " " ++ sig0B64(upd_out, witV()) ++ "\n"
